@@ -711,6 +711,11 @@ def run(rep, tier, seed):
     rep.assumptions = ['in the generated stream SET containers get a tagged ANY field (an untagged one is ambiguous for inner values sharing the tag of another member); SET with an untagged ANY is exercised by a dedicated sweep with unambiguous inner values']
     g0 = gen.Gen(rng, max_depth=1, allow_any=False)
     _DRV[0] = common.Driver()
+    # what an ANY field captures is translated from the source on every run (GenK.anyCapture = AnyPayloadDecoder.valueDecoder;
+    # Props/C18 source_untagged_any_holds_whole_encoding / source_tagged_any_holds_contents) and compared with the real decoder
+    from harness import kernels
+    kernels.obligations(rep, ['anyCapture'])
+    kernels.check(rep, _DRV[0], seed, 150 if tier == 'quick' else 6000, which=('anyCapture',))
     check_map_history(rep, rng)
     rep.case('nested caller map', nontrivial=True)
     check_nested_caller_map(rep)
